@@ -137,8 +137,9 @@ def run(eng, R):
         base = "PlotAdapterBase"
         f = get_func(p, base, "_get_total_error")
         src = _txt(f.node)
-        ok = "_total_err = np.zeros_like(self.data_y)" in src and "_total_err += getattr(self, _ec + '_yerr') ** 2" in src \
-            and "_total_err += self._fit._cost_function.get_uncertainty_gaussian_approximation(getattr(self, _ec + '_y')) ** 2" in src and "_total_err = np.sqrt(_total_err)" in src
+        # placeholders: `_t` the accumulator, `_k` the contribution
+        ok = src.all_like("_t = np.zeros_like(self.data_y)", "_t += getattr(self, _k + '_yerr') ** 2", "_t += self._fit._cost_function.get_uncertainty_gaussian_approximation(getattr(self, _k + '_y')) ** 2") \
+            and (src.like("_t = np.sqrt(_t)") or src.like("np.sqrt(_t)"))
         g = eng.cfg(f)
         R.ob("A-draw", "PlotAdapterBase._get_total_error", ok, (f.file, f.lineno),
              "the plotted uncertainty must be sqrt(sum over contributions of yerr^2 + Poisson term(y)^2), each contribution with its own y values")
@@ -284,7 +285,7 @@ def run(eng, R):
     # ------------------------------------------------------------------ F-info
     with R.guard("Finfo"):
         gi = get_func(p, "Plot", "_get_fit_info")
-        sites = [s for s in fresh.print_sites(p) if s[0].qualname == "Plot._get_fit_info"]
+        sites = [s for s in fresh.print_sites(p) if s[0].qualname.startswith("Plot.")]   # (the info box text may be assembled in private helpers of Plot)
         if not sites:
             raise AnalysisError("Plot._get_fit_info: print of the parameter formatters not found")
         for f, c, src, stored in sites:
@@ -297,7 +298,9 @@ def run(eng, R):
                 "multi ndf": "self._multifit.ndf", "multi cost": "self._multifit.cost_function_value", "multi gof": "self._multifit.goodness_of_fit",
                 "multi probability": "ParameterFormatter('chi2', self._multifit.chi2_probability)"}
         for k, w in need.items():
-            R.ob("F-info", "Plot._get_fit_info:%s" % k, common.Src(str(src)).like(w), (gi.file, gi.lineno), "the info box must read %s from the fit it describes: `%s`" % (k, w))
+            # (the fit / the multi fit may be held in a local first)
+            ok_ = common.like_any(src, w, ["_pf = plot_adapter._fit", w.replace("plot_adapter._fit", "_pf")], ["_mf = self._multifit", w.replace("self._multifit", "_mf")])
+            R.ob("F-info", "Plot._get_fit_info:%s" % k, ok_, (gi.file, gi.lineno), "the info box must read %s from the fit it describes: `%s`" % (k, w))
         n_fmt = 0
         for c in walk_no_nested(gi.node):
             if isinstance(c, ast.Call) and isinstance(c.func, ast.Attribute) and c.func.attr == "get_formatted" and "formatter" in _txt(c.func.value):
